@@ -92,14 +92,6 @@ const prelude = `(define-fun tdiv ((a Int) (b Int)) Int (ite (>= a 0) (div a b) 
 (declare-fun tagof (Int) Int)
 (declare-fun ix (Int Int) Int)
 (assert (forall ((a Int) (b Int)) (! (= (ix a b) (+ a b)) :pattern ((ix a b)))))
-(declare-fun bytes2nat ((Seq Int)) Int)
-(declare-fun nat2bytes (Int) (Seq Int))
-(assert (forall ((n Int)) (! (=> (>= n 0) (= (bytes2nat (nat2bytes n)) n)) :pattern ((nat2bytes n)))))
-(assert (forall ((b (Seq Int))) (! (>= (bytes2nat b) 0) :pattern ((bytes2nat b)))))
-(assert (= (bytes2nat (as seq.empty (Seq Int))) 0))
-(declare-fun bcmp ((Seq Int) (Seq Int)) Int)
-(assert (forall ((a (Seq Int)) (b (Seq Int))) (! (and (<= (- 1) (bcmp a b)) (<= (bcmp a b) 1) (= (bcmp a b) (- (bcmp b a))) (= (= (bcmp a b) 0) (= a b))) :pattern ((bcmp a b)))))
-(assert (forall ((a (Seq Int)) (b (Seq Int)) (c (Seq Int))) (! (=> (and (<= (bcmp a b) 0) (<= (bcmp b c) 0)) (<= (bcmp a c) 0)) :pattern ((bcmp a b) (bcmp b c)))))
 (declare-fun u_and (Int Int) Int)
 (declare-fun u_or (Int Int) Int)
 (declare-fun u_xor (Int Int) Int)
